@@ -169,9 +169,12 @@ func writeOut(ctx *model.Context) (out []byte, err error) {
 	return out, err
 }
 
-func readBack(out []byte, c wconf) (ctx *model.Context, err error) {
+func readBack(out []byte, c wconf, bigNumbers ...bool) (ctx *model.Context, err error) {
 	conf := model.NewDefaultConfiguration()
 	conf.Cmd = model.VALIDATE
+	if len(bigNumbers) > 0 && bigNumbers[0] {
+		conf.Limits.MaxObjectCount = 1 << 26
+	}
 	if c.enc != "" {
 		conf.UserPW = "upw"
 		conf.OwnerPW = "opw"
@@ -308,6 +311,10 @@ func minus(a, b []int) []int {
 }
 
 type docCase struct {
+	// bigNumbers: object numbers above the reader's default Limits.MaxObjectCount (10,000,000):
+	// the written file is read back with raised limits for the comparison, and once more with
+	// the default limits (class xref-stream-size-over-read-limit when that silently differs)
+	bigNumbers            bool
 	sparseWhich, sparseTo int // sparseTo > 0: renumber one object of the read context (sparse.go)
 	name    string
 	doc     []byte
@@ -390,7 +397,15 @@ func runDoc(r *vh.Run, dc docCase, configs []wconf) {
 			recycled = "recycled-number-still-referenced:info-dict"
 			r.OracleFail(recycled, input(c), fmt.Sprintf("the new info dictionary was given object number %d, which the document still references (free entry)", ctx1.Info.ObjectNumber.Value()))
 		}
-		ctx2, err := readBack(out, c)
+		if dc.bigNumbers && c.xrefStm {
+			// default limits: the reader must either fail or deliver the same document
+			if ctxd, e := readBack(out, c); e == nil {
+				if cd, e2 := canonical(ctxd); e2 == nil && strings.Join(cd, "\n") != strings.Join(before.canon, "\n") {
+					r.OracleFail("xref-stream-size-over-read-limit", input(c), "xref stream /Size above Limits.MaxObjectCount: the reader neither fails nor reads the document it was given (xref stream rejected, silent repair by scanning): "+firstDiff(before.canon, cd))
+				}
+			}
+		}
+		ctx2, err := readBack(out, c, dc.bigNumbers)
 		if err != nil {
 			if recycled == "" {
 				r.OracleFail("reread-fails", input(c), err.Error())
@@ -578,7 +593,7 @@ func main() {
 	configs := allConfigs()
 
 	// generated documents
-	nGen := r.Pick(60, 180)
+	nGen := r.Pick(60, 150)
 	for i := 0; i < nGen; i++ {
 		doc, di := genDoc(r.Rand, genOpts{allowHazards: true})
 		for _, d := range di.desc {
@@ -639,7 +654,8 @@ func main() {
 	if r.Thorough() {
 		doc, di := genDoc(r.Rand, genOpts{sparse: "several", sparseNr: []int{1 << 24, 1<<24 + 1, 70000}})
 		r.Count("gen:sparse:2^24")
-		runDoc(r, docCase{name: "sparse-2^24", doc: doc, desc: strings.Join(di.desc, ","), maxObjs: 100000}, []wconf{configs[1], configs[2]})
+		// one such document, one configuration (xref stream + object streams): pdfcpu walks 0..Size
+		runDoc(r, docCase{name: "sparse-2^24", doc: doc, desc: strings.Join(di.desc, ","), maxObjs: 100000, bigNumbers: true}, []wconf{configs[2]})
 	}
 
 	// corpus
